@@ -3,6 +3,8 @@ package engine
 import (
 	"fmt"
 	"sync"
+	"sync/atomic"
+	"time"
 )
 
 // E2 is an explicit-state breadth-first search over the real transition
@@ -17,6 +19,12 @@ type E2[S any] struct {
 	Canon     func(s S) string                             // canonical form of the property-relevant state
 	MaxDepth  int
 	MaxStates int // safety cap (reported, never silent)
+}
+
+// e2q is a violation candidate of one BFS level that did not reproduce while the other workers were running.
+type e2q struct {
+	i            int
+	first, other Result
 }
 
 type e2node[S any] struct {
@@ -87,6 +95,8 @@ func RunE2[S any](c *Check, e E2[S]) {
 		}
 		results := make([]done, len(jobs))
 		var wg sync.WaitGroup
+		var qmu sync.Mutex
+		var quar []e2q
 		next := make(chan int, W)
 		for w := 0; w < W; w++ {
 			wg.Add(1)
@@ -98,7 +108,12 @@ func RunE2[S any](c *Check, e E2[S]) {
 					if r.Sig != "" {
 						for k := 0; k < 2; k++ {
 							if _, r2 := steps[w](nodes[j.node].st, j.op); r2.Sig != r.Sig {
-								c.Internal(fmt.Sprintf("violation candidate not reproducible in %s path %v: %q vs %q", e.Part, pathOf(j.node, j.op), r.Sig, r2.Sig))
+								// settled after this level, with nothing else running (see settle below and e1.go)
+								qmu.Lock()
+								if len(quar) < 64 {
+									quar = append(quar, e2q{i, r, r2})
+								}
+								qmu.Unlock()
 								r.Sig = ""
 								break
 							}
@@ -120,6 +135,78 @@ func RunE2[S any](c *Check, e E2[S]) {
 		}
 		close(next)
 		wg.Wait()
+		// non-reproducible candidates of this level: alone x3 (unstable => internal error; stable and violating => a
+		// violation); stable and fine => only disturbed while other transitions ran: the disturbed transitions are then
+		// executed against each other from free-running goroutines and a difference from the sequential reference is
+		// an interference violation (supplementary, schedules sampled; without an observed difference: internal error)
+		if len(quar) > 0 {
+			var pool []e2q
+			for _, q := range quar {
+				j := jobs[q.i]
+				_, r0 := steps[0](nodes[j.node].st, j.op)
+				stable := true
+				for k := 0; k < 2; k++ {
+					if _, r2 := steps[0](nodes[j.node].st, j.op); r2.Sig != r0.Sig || r2.Outcome != r0.Outcome {
+						stable = false
+					}
+				}
+				switch {
+				case !stable:
+					c.Internal(fmt.Sprintf("violation candidate not reproducible in %s path %v, also when executed alone: %q vs %q", e.Part, pathOf(j.node, j.op), q.first.Sig, q.other.Sig))
+				case r0.Sig != "":
+					results[q.i].r = r0
+				default:
+					pool = append(pool, q)
+				}
+			}
+			if len(pool) > 0 {
+				refs := make([]Result, len(pool))
+				for k, q := range pool {
+					j := jobs[q.i]
+					_, refs[k] = steps[0](nodes[j.node].st, j.op)
+				}
+				var found atomic.Int64
+				found.Store(-1)
+				var got atomic.Pointer[Result]
+				end := time.Now().Add(10 * time.Second)
+				var wg2 sync.WaitGroup
+				for w := 0; w < W; w++ {
+					wg2.Add(1)
+					go func(w int) {
+						defer wg2.Done()
+						for round := 0; found.Load() < 0 && time.Now().Before(end); round++ {
+							for x := range pool {
+								k := (x + w*5 + round) % len(pool)
+								j := jobs[pool[k].i]
+								if _, r := steps[w](nodes[j.node].st, j.op); r.Outcome != refs[k].Outcome || r.Sig != refs[k].Sig {
+									if found.CompareAndSwap(-1, int64(k)) {
+										got.Store(&r)
+									}
+									return
+								}
+							}
+						}
+					}(w)
+				}
+				wg2.Wait()
+				if k := found.Load(); k >= 0 && got.Load() != nil {
+					j := jobs[pool[k].i]
+					g := got.Load()
+					results[pool[k].i].r = Bad(refs[k].Rule, g.Outcome, c.Prop+"/interference/"+e.Part+"/result-depends-on-concurrent-calls",
+						fmt.Sprintf("path %v: executed alone (3x) the last step yields %q; executed while other goroutines run other transitions it yielded %q %s - requests disturb each other through state shared inside the library (free-running confirmation, schedules sampled)",
+							pathOf(j.node, j.op), refs[k].Outcome, g.Outcome, g.Detail))
+				} else {
+					seenSig := map[string]bool{}
+					for _, q := range pool {
+						if !seenSig[q.first.Sig] {
+							j := jobs[q.i]
+							c.Internal(fmt.Sprintf("violation candidate not reproducible in %s path %v: %q vs %q (alone it is stable and fine; no interference reproduced)", e.Part, pathOf(j.node, j.op), q.first.Sig, q.other.Sig))
+						}
+						seenSig[q.first.Sig] = true
+					}
+				}
+			}
+		}
 		var nf []int
 		for _, d := range results[:limit] {
 			transitions++
